@@ -651,8 +651,19 @@ def huge_count_probe(ctx):
                               {"kind": "huge", "probe": name, "k": k, "seed": seed})
 
 
+def known_len_overflow(ctx):
+    """Open finding: len() of a language with 2**63 or more words raises OverflowError (Python's __len__ protocol
+    cannot return it), cardinality() gives the number."""
+    from automata.fa.dfa import DFA
+    d = DFA.of_length({"a", "b"}, min_length=63, max_length=63)
+    card, ln = outcome(lambda: d.cardinality()), outcome(lambda: len(d))
+    ctx.open_finding("len_overflow_from_2_63_words", card[:2] == ("ok", 2 ** 63) and ln[:2] != ("ok", 2 ** 63),
+                     f"DFA.of_length({{a,b}}, 63, 63): cardinality() = {card[1]}, len() gives {ln}")
+
+
 def run(ctx):
     ctx.rule = RULE
+    known_len_overflow(ctx)
     rng = ctx.rng
     huge_count_probe(ctx)
     for name, ddef in corner_defs():
